@@ -27,7 +27,7 @@ PROOF_TARGETS = ["C10/SgrLemmas.vo", "C10/Lemmas.vo", "C10/LemmasInv.vo", "C10/L
 PROPS = ["C10/Props.v"]
 ALLOWED_AXIOMS = []
 IMPL_TIMEOUT = 60.0
-COQ_SHARD = 40
+COQ_SHARD = 16      # cases per coqc file: the printed result of a file (one line per case, (length, hash) of every text) must stay below ~30 000 characters -- at 40 cases the lazy-result histories (up to 3 000 characters each) made coqc end in "Stack overflow" in the thorough tier
 
 ESC = "\x1b"
 SEQ_RE = re.compile(r"\x1b\[[;:\d]*m")
